@@ -406,3 +406,15 @@ Theorem C18_run_preds_judged : forall k adds,
   end.
 Proof. exact run_C18_preds_judged. Qed.
 Print Assumptions C18_run_preds_judged.
+
+(* tag 8 (PredicateList.make called directly): the runner's answer -- the sorter's outcome and the first-occurrence order
+   of the instrumented predicates created by the REGENERATED make -- is accepted by the evaluation-order judge (tag 7),
+   whenever make() succeeds and every instrumented predicate got at least one value; a sorter error is always accepted *)
+Theorem C18_wire_make_judged : forall k adds kw,
+  let s := preds_scenario k adds in
+  (forall ordered, sorted s = Sorted ordered ->
+     (exists order ps ph, gen_pl_make pl_max_order (Sorted ordered) kw = MkOk order ps ph) /\
+     (forall n f, In (n, f) ordered -> f <> 0%N -> vals_of kw n <> [])) ->
+  let '(o, ev, mk) := make_obs s kw in judge_preds k adds o ev = Some true.
+Proof. exact wire_make_judged. Qed.
+Print Assumptions C18_wire_make_judged.
